@@ -9,6 +9,7 @@ import (
 
 	"github.com/rqlite/rqlite/v10/db"
 	"github.com/rqlite/rqlite/v10/internal/rsum"
+	"github.com/rqlite/rqlite/v10/internal/verifhook"
 	"github.com/rqlite/rqlite/v10/snapshot/proto"
 	"github.com/rqlite/rqlite/v10/snapshot/sidecar"
 )
@@ -204,6 +205,9 @@ func (s *FullSink) Close() error {
 	if err := s.closeFile(); err != nil {
 		return err
 	}
+	if err := verifhook.Hit("snapshot.fullsink.close.after-file-close"); err != nil {
+		return err
+	}
 
 	// CRC32 sums were computed inline as bytes were written through the
 	// sink, so verification just compares the captured sums to the header
@@ -220,9 +224,15 @@ func (s *FullSink) Close() error {
 		if err := sidecar.WriteFile(walPath+crcSuffix, walCRC); err != nil {
 			return fmt.Errorf("writing CRC32 sidecar for WAL file %d: %w", i, err)
 		}
+		if err := verifhook.Hit("snapshot.fullsink.close.after-wal-sidecar"); err != nil {
+			return err
+		}
 	}
 	if err := sidecar.WriteFile(s.dbFile+crcSuffix, s.dbCRC); err != nil {
 		return fmt.Errorf("writing CRC32 sidecar for DB file: %w", err)
+	}
+	if err := verifhook.Hit("snapshot.fullsink.close.after-db-sidecar"); err != nil {
+		return err
 	}
 	recordDuration(sinkFullCRC32Dur, start)
 	return nil
